@@ -59,7 +59,7 @@ ASSUMPTIONS = [
     "lc_approx with a single coefficient for several landscapes (numpy broadcasting) is not modelled",
     "class exact/tol/long (30+ random-double breakpoints per depth): the Coq model is NOT run (its unreduced rational "
     "quotients exceed any time-out; verdict skip); the spec predicate is evaluated on them and the model runs on the "
-    "exact/exact/long histories of the same sizes",
+    "exact/exact/long histories of the same sizes up to 140 breakpoints per depth (thorough-tier lists of 260 / 520 breakpoints are judged by the spec predicate only: three vm_compute files ran past 900 s each)",
     "leaves are taken as the critical_pairs / values the constructor produced (their correctness is C03 / C08)",
 ]
 TOL = Fraction(1, 10 ** 9)
@@ -1163,6 +1163,13 @@ def coq_judge(cases, outs, results):
     verdicts = ["disagree:outcome not expressible (unknown exception, non-finite value or leaf failure)"] * len(cases)
     terms, idx = [], []
     for i, (c, o) in enumerate(zip(cases, outs)):
+        def _max_depth_len(case):
+            return max([len(d) for lf in case.get("leaves", []) for d in lf.get("cp", [])] or [0])
+        if c.get("cls") == "exact/exact/long" and _max_depth_len(c) > 140 and "error" not in o and not _nonfinite(o):
+            # thorough-tier sizes (up to 520 breakpoints per depth): even on dyadic inputs three vm_compute files ran past
+            # 900 s each; the model still runs on the exact/exact/long histories of up to 140 breakpoints per depth
+            verdicts[i] = "skip:model not run on exact histories with more than 140 breakpoints per depth; spec predicate only"
+            continue
         if c.get("cls") == "exact/tol/long" and "error" not in o and not _nonfinite(o):
             # random doubles on lists of 30+ breakpoints: the Q model's unreduced quotients grow beyond any time-out
             # (measured: > 900 s for one history).  The spec predicate is still evaluated on these; the model runs on
